@@ -212,6 +212,94 @@ func FactsAt(b *ssa.BasicBlock) []Fact {
 		if f, ok := predicateFact(c); ok {
 			out = append(out, f)
 		}
+		out = append(out, guardFacts(c)...)
+	}
+	return out
+}
+
+// guardFacts: the condition says that the error answered by a function of the same package is nil
+// (`err := check(x); if err != nil { return err }` on the fall-through side). Whatever holds at EVERY
+// nil-error return of that function then holds here, with its parameters replaced by the arguments: an
+// extracted validation step (`func check(b []byte) error { if len(b) == 0 { return errEmpty }; ... }`)
+// establishes in its caller what the inlined tests established.
+func guardFacts(c Cond) []Fact {
+	bo, ok := c.V.(*ssa.BinOp)
+	if !ok {
+		return nil
+	}
+	var ev ssa.Value
+	switch {
+	case IsNilConst(bo.Y):
+		ev = bo.X
+	case IsNilConst(bo.X):
+		ev = bo.Y
+	default:
+		return nil
+	}
+	if !((bo.Op == token.NEQ && !c.Taken) || (bo.Op == token.EQL && c.Taken)) {
+		return nil
+	}
+	var call *ssa.Call
+	idx := 0
+	switch t := ev.(type) {
+	case *ssa.Call:
+		call = t
+	case *ssa.Extract:
+		call, _ = t.Tuple.(*ssa.Call)
+		idx = t.Index
+	}
+	if call == nil || call.Parent() == nil {
+		return nil
+	}
+	h := call.Call.StaticCallee()
+	if h == nil || h.Blocks == nil || h.Pkg != call.Parent().Pkg || h == call.Parent() || ErrIndex(h.Signature) != idx {
+		return nil
+	}
+	var common map[string]Fact
+	for _, r := range Returns(h) {
+		if !NilReturn(r, nil) {
+			continue
+		}
+		here := map[string]Fact{}
+		for _, cd := range CondsAt(r.Block()) {
+			f := FactOf(cd)
+			here[f.String()] = f
+			if pf, ok := predicateFact(cd); ok {
+				here[pf.String()] = pf
+			}
+		}
+		if common == nil {
+			common = here
+			continue
+		}
+		for k := range common {
+			if _, ok := here[k]; !ok {
+				delete(common, k)
+			}
+		}
+	}
+	if len(common) == 0 {
+		return nil
+	}
+	m := map[string]string{}
+	for i, p := range h.Params {
+		if i < len(call.Call.Args) {
+			m[ExprKey(p)] = ExprKey(call.Call.Args[i])
+		}
+	}
+	var keys []string
+	for k := range common {
+		keys = append(keys, k)
+	}
+	sort.Strings(keys)
+	var out []Fact
+	for _, k := range keys {
+		f := common[k]
+		f.A, f.B = substTokens(f.A, m), substTokens(f.B, m)
+		if (f.Op == "==" || f.Op == "!=") && f.B < f.A {
+			f.A, f.B = f.B, f.A
+		}
+		out = append(out, f)
 	}
 	return out
 }
